@@ -27,7 +27,7 @@ def str_lit(s):
     # Coq string literal; only printable ASCII expected in tables
     return '"' + s.replace('"', '""') + '"'
 
-HEADER = "(* GENERATED on every run by tools/gen_tables.py from /repo (do not edit). *)\nFrom Coq Require Import List NArith ZArith String.\nImport ListNotations.\n"
+HEADER = "(* GENERATED on every run by tools/gen_tables.py from /repo (do not edit). *)\nFrom Coq Require Import List NArith ZArith.\nImport ListNotations.\n"
 
 def gen(tables, outdir):
     changed = []
@@ -50,6 +50,7 @@ def generator(fname, key):
 
 try:
     sys.path.insert(0, os.path.dirname(os.path.abspath(__file__)))
+    sys.modules.setdefault('gen_tables', sys.modules[__name__])
     import gen_more  # noqa: F401  (registers more generators)
 except ImportError:
     pass
